@@ -30,7 +30,8 @@ def gen(ctx):
         prev = list(row) if form in ("view0", "viewlast") else [rng.randint(0, 1) for _ in range(N)]
         yield dict(kind="rev", hist=hist, prev=prev, R=rng.randrange(256), T=rng.randint(1, 8), form=form,
                    dtype=rng.choice(["int32", "int32", "int64", "uint8", "int8", "uint16", "int16"]),
-                   scribble=int(form in ("list", "array") and rng.random() < 0.4))
+                   scribble=int(form in ("list", "array") and rng.random() < 0.4),
+                   split=rng.choice([0, 0, 1, 2, 3]))
 
 
 def line(c):
@@ -65,7 +66,14 @@ def run(c):
     init_snapshot = [int(x) for x in init]
     ca_snapshot = ca.tobytes()
     try:
-        res = cpl.evolve(ca, timesteps=c["T"], apply_rule=rule, r=1)
+        if c.get("split") and c["T"] >= 3:
+            # the evolution is continued with the SAME rule object (it carries s(t-1)): same result as in one go
+            T1 = 2 + (c["split"] % (c["T"] - 2 + 1)) if c["T"] > 2 else 2
+            T1 = min(T1, c["T"] - 1)
+            first = cpl.evolve(ca, timesteps=T1, apply_rule=rule, r=1)
+            res = cpl.evolve(first, timesteps=c["T"] - T1 + 1, apply_rule=rule, r=1)
+        else:
+            res = cpl.evolve(ca, timesteps=c["T"], apply_rule=rule, r=1)
     except Exception as e:  # noqa
         return None, e, None, None, None
     caller_ok = ca.tobytes() == ca_snapshot
